@@ -177,7 +177,7 @@ def check_struct(ctx, rep, rule, name, modhint=None, prefix=""):
             rep.check(rule + ".2", key + ":count", ok, detail, loc, sample={"vector": key, "count": cnt})
     # calc fields must be referenced by some count
     for fi in lay["fields"]:
-        if "calc" in fi["dirs"]["write"]:
+        if "calc" in fi["dirs"]["write"] and not fi.get("explicit_pad"):
             used = False
             for f2 in lay["fields"]:
                 d2 = f2["dirs"]["read"]
